@@ -586,6 +586,15 @@ func (c *Ctx) symbolicSprintf(fr *Frame, format string, args []Value) (Value, bo
 		arg := args[ai]
 		ai++
 		iv, _ := arg.(Iface)
+		if verb == "%T" {
+			// only the dynamic type is printed
+			if iv.t == nil {
+				lit("<nil>")
+			} else {
+				lit(types.TypeString(iv.t, func(p *types.Package) string { return p.Name() }))
+			}
+			continue
+		}
 		switch v := iv.v.(type) {
 		case Str:
 			if verb == "%s" || verb == "%v" {
